@@ -129,6 +129,9 @@ class ConcreteEx:
     def prefer_int(self, on=True):
         pass
 
+    def unstubbed(self, fn, *args, **kw):
+        return fn(*args, **kw)
+
     # stubs
     def stub(self, target, repl, owner=None, attr=None):
         """Replace `target` wherever btclib modules (and `owner`) hold a reference."""
@@ -220,6 +223,17 @@ def _install_explorer_api():
 
     def prefer_int(self, on=True):
         core.INT_FIRST = on
+
+    def unstubbed(self, fn, *args, **kw):
+        """Call the library's own `fn` from inside its stub."""
+        st = instr.STUBS.pop(fn, None)
+        try:
+            return instr.call(fn, *args, **kw)
+        finally:
+            if st is not None:
+                instr.STUBS[fn] = st
+
+    E.unstubbed = unstubbed
 
     E.prefer_int = prefer_int
     E.abstract_wide_arith = abstract_wide_arith
